@@ -13,7 +13,7 @@ PROP = {
             "probes after every loop for every variable the body assigns or the condition mentions; "
             "distinct = FNV of the sorted (guard path @ preceding loop kinds) of reached probes; non-trivial = >= 2 post-loop probes reached",
     "min_nontrivial": {"quick": 5000, "thorough": 150000},
-    "max_secs": {"quick": 75, "thorough": 900},
+    "max_secs": {"quick": 600, "thorough": 1500},
     "require_clauses": ["post-loop-probe:reached", "post-loop-diag:guaranteed-uses", "loop-kind:while", "loop-kind:repeat", "loop-kind:numeric-for", "loop-kind:generic-for"],
     "assumptions": COMMON_ASSUME + [
         "same gamma and execution assumptions as C15",
